@@ -352,6 +352,12 @@ def gen_cases(tier, rng):
     for kind, cnt in n.items():
         for k in range(cnt):
             out.append({"kind": kind, "seed": rng.u64(), "k": k, "big": int(tier == "thorough" and k % 10 == 0)})
+    # cycle-level transmit model: GatewarePHY ("txc") and the bare TxPipeline ("txp"), all four clock phases
+    nc = {"quick": 12, "widen": 40}.get(tier, 160)
+    for k in range(nc):
+        out.append({"kind": "txc" if k % 3 else "txp", "seed": rng.u64(), "k": k, "phase": k % 4,
+                    "mode": ["packets", "packets", "random", "packets", "async"][k % 5],
+                    "cycles": 1200 if tier != "thorough" else 3000, "big": int(tier == "thorough" and k % 8 == 0)})
     return out
 
 
@@ -582,5 +588,137 @@ def run_glue(desc):
                 ["d_p.o", "d_n.o", "oe", "pullup.o", "pulldown.o"])
 
 
+# ------------------------------------------------------------------------------------------------ cycle-level tx
+class _TxStim:
+    """Per-usb_io-cycle stimulus for the cycle-level transmit model (Lean sub-model 4 = `FsTx.step phase`).
+
+    mode "packets": a UTMI producer obeying the handshake (holds tx_valid and the byte until tx_ready, drops
+                    tx_valid after the last tx_ready), random gaps (sometimes shorter than the documented
+                    minimum: the model follows the code there too), tx_data garbage while idle;
+    mode "random":  tx_valid toggling at random usb cycles with random data;
+    mode "async":   as "random" but the inputs may change in any usb_io cycle."""
+
+    def __init__(self, rng, mode, phase, big):
+        self.rng, self.mode, self.phase = rng, mode, phase
+        self.valid, self.data = 0, 0
+        self.queue = []
+        self.gap = rng.range(0, 12)
+        self.garbage = rng.chance(60)
+        self.big = big
+        self.npackets = 0
+        self.p_toggle = rng.choice([3, 10, 30])
+
+    def usb_cycle_start(self, k):
+        # the usb edge ends the cycles with k % 4 == phase; the producer's outputs change right after it
+        return k == 0 or (k - 1) % 4 == self.phase
+
+    def row(self, k):
+        rng = self.rng
+        if self.mode == "packets":
+            if self.usb_cycle_start(k) and not self.valid:
+                if self.gap > 0:
+                    self.gap -= 1
+                    if self.garbage:
+                        self.data = rng.below(256)
+                else:
+                    self.queue = gen_bytes(rng, 40 if self.big else 10)
+                    self.npackets += 1
+                    self.valid, self.data = 1, self.queue[0]
+        elif self.mode == "random" and self.usb_cycle_start(k) or self.mode == "async":
+            if rng.chance(self.p_toggle if self.mode == "random" else max(1, self.p_toggle // 3)):
+                self.valid ^= 1
+            if rng.chance(40):
+                self.data = rng.choice([0xFF, 0x7F, 0xFE, 0xFC, 0x3F, 0x00, rng.below(256), rng.below(256)])
+        return [self.valid, self.data]
+
+    def feedback(self, k, ready):
+        """called with the tx_ready observed in usb_io cycle k (before its tick)"""
+        if self.mode != "packets" or k % 4 != self.phase or not (ready and self.valid):
+            return
+        self.queue.pop(0)
+        if self.queue:
+            self.nxt = (1, self.queue[0])
+        else:
+            self.nxt = (0, self.rng.below(256) if self.garbage else 0)
+            self.gap = self.rng.weighted([(6, self.rng.range(16, 40)), (2, self.rng.range(0, 16))])
+
+    def apply_pending(self):
+        if getattr(self, "nxt", None) is not None:
+            self.valid, self.data = self.nxt
+            self.nxt = None
+
+
+def run_txcycle(desc):
+    """kind "txc": the real GatewarePHY (normal op-mode), kind "txp": the real TxPipeline on its own with the
+    bit strobe generated as GatewarePHY does (every 4th usb_io cycle) -- compared usb_io cycle by usb_io cycle with
+    the Lean model `FsTx.step phase` (tx_ready, D+, D-, oe; for "txp" also fit_dat / fit_oe)."""
+    from amaranth.sim import Simulator
+    rng = Rng(desc["seed"])
+    phase = desc.get("phase", 0)
+    mode = desc.get("mode", "packets")
+    whole = desc["kind"] == "txc"
+    n = desc.get("cycles", 1600)
+    rows = [list(r) for r in desc["stimulus"]] if desc.get("stimulus") else None
+    stim = _TxStim(rng.fork("stim"), mode, phase, desc.get("big", 0))
+    if whole:
+        from luna.gateware.interface.gateware_phy.phy import GatewarePHY
+        io = _IO()
+        dut = GatewarePHY(io=io)
+        ins = [dut.tx_valid, dut.tx_data]
+        outs = [dut.tx_ready, io.d_p.o, io.d_n.o, io.d_p.oe]
+    else:
+        from luna.gateware.interface.gateware_phy.transmitter import TxPipeline
+        dut = TxPipeline()
+        ins = [dut.i_oe, dut.i_data_payload]
+        outs = [dut.o_data_strobe, dut.o_usbp, dut.o_usbn, dut.o_oe, dut.fit_dat, dut.fit_oe]
+    top = sim._Wrap(dut, ["usb_io", "usb"])
+    s = Simulator(top)
+    P = 1e-6
+    s.add_clock(P, domain="usb_io")
+    s.add_clock(4 * P, phase=P / 2 + phase * P, domain="usb")
+    inputs, outputs = [], []
+    fails = []
+
+    async def tb(ctx):
+        if whole:
+            ctx.set(io.d_p.i, 1)
+            ctx.set(io.d_n.i, 0)
+            ctx.set(io.vbus_valid.i, 1)
+        k = 0
+        while k < (len(rows) if rows is not None else n):
+            if rows is not None:
+                r = rows[k]
+            else:
+                if stim.usb_cycle_start(k):
+                    stim.apply_pending()
+                r = stim.row(k)
+            ctx.set(ins[0], r[0])
+            ctx.set(ins[1], r[1])
+            if not whole:
+                ctx.set(dut.i_bit_strobe, int(k % 4 == 0))
+            o = [ctx.get(x) for x in outs]
+            if whole and o[3] != ctx.get(io.d_n.oe):
+                fails.append({"cycle": k, "sig": "oe-differ", "what": "d_p.oe != d_n.oe at usb_io cycle %d" % k})
+            if rows is None:
+                stim.feedback(k, o[0])
+            inputs.append(list(r))
+            outputs.append(o + ([None, None] if whole else []))
+            await ctx.tick("usb_io")
+            k += 1
+
+    s.add_testbench(tb)
+    s.run()
+    tags = {desc["kind"], "%s:phase=%d" % (desc["kind"], phase), "%s:%s" % (desc["kind"], mode)}
+    if any(o[0] for o in outputs):
+        tags.add("txc:ready")
+    if any(o[3] and not o[1] and not o[2] for o in outputs):
+        tags.add("txc:se0")
+    if stim.npackets > 1:
+        tags.add("txc:several-packets")
+    d = dict(desc)
+    return Case([4, phase], inputs, outputs, fails[:5], sorted(tags), d, ["tx_valid", "tx_data"],
+                ["tx_ready", "d_p.o", "d_n.o", "oe", "fit_dat", "fit_oe"])
+
+
 def run_case(desc):
-    return {"tx": run_tx, "rx": run_rx, "glue": run_glue}[desc["kind"]](desc)
+    return {"tx": run_tx, "rx": run_rx, "glue": run_glue, "txc": run_txcycle, "txp": run_txcycle}[desc["kind"]](desc)
